@@ -155,3 +155,30 @@ package js_parser
 // evaluates: the body is empty AND every parameter is a plain identifier WITHOUT a default-value initialiser
 // (ECMA-262 10.2.11 FunctionDeclarationInstantiation evaluates initialisers on every call that omits the argument).
 //@ decides empty-function-looks-at-defaults C03: func=(*parser).visitAndAppendStmt ; in=js_parser ; site=store Symbol.Flags ; when=*|256* ; scenario=empty_function_default_arg ; must=Arg.Binding,Arg.DefaultOrNil
+
+// C14: a value is captured in a generated temporary (`_a = value`) only after deciding that it is not `super`:
+// `super` is not an expression (ECMA-262 13.3.7: only `super.x`, `super[x]`, `super(...)`), so `(_a = super).x ||
+// (_a.x = 1)` is a SyntaxError in every edition. `this`, literals and private names are re-created; so must `super`.
+//@ decides never-capture-super-in-a-temporary C14: func=(*parser).captureValueWithPossibleSideEffects ; in=js_parser ; site=closure-calling generateTempRef ; scenario=super_compound_assign ; must=type:ESuper,type:EThis
+
+// C14: regular-expression literals. A `\p{...}` / `\P{...}` Unicode property escape (ES2018) is one wherever an escape
+// may stand, inside a character class as well as outside (ECMA-262 22.2.1: ClassEscape[U] includes
+// CharacterClassEscape[U]). reEsc(s,k): the backslash at k starts an escape, i.e. it is not itself the escaped
+// character of an escape that starts at k-1.
+//@ spec rec func reEsc(s string, k int) bool = k >= 0 && k < len(s) && s[k] == '\\' && !reEsc(s, k-1)
+//@ spec func rePropEsc(s string, k int) bool = reEsc(s, k) && k+2 < len(s) && (s[k+1] == 'p' || s[k+1] == 'P') && s[k+2] == '{' &&
+//@     (exists j int :: k+2 < j && j < len(s) && s[j] == '}')
+//@ func (*parser).isUnsupportedRegularExpression
+//@   prop C14
+//@   opt scenario regex_class_property_escape
+//@   timeout 60
+//@   requires strings.LastIndexByte(value, '/') >= 1
+//@   ensures unicode-property-escapes-are-always-found: (forall k int :: 0 <= k && k < len(pattern) ==> pattern[k] != ')') &&
+//@       strings.IndexByte(flags, 'u') >= 0 && p.options.unsupportedJSFeatures.Has(compat.RegexpUnicodePropertyEscapes) &&
+//@       (exists k int :: 0 <= k && k < len(pattern) && rePropEsc(pattern, k)) ==> isUnsupported
+//@   loop 0 invariant 0 <= i && (i <= len(pattern) ==> !reEsc(pattern, i-1))
+//@   loop 0 invariant isUnicode && p.options.unsupportedJSFeatures.Has(compat.RegexpUnicodePropertyEscapes) ==>
+//@       (forall k int :: 0 <= k && k < i && k < len(pattern) ==> !rePropEsc(pattern, k))
+//@   loop 1 invariant 0 <= i && (i <= len(pattern) ==> !reEsc(pattern, i-1))
+//@   loop 1 invariant isUnicode && p.options.unsupportedJSFeatures.Has(compat.RegexpUnicodePropertyEscapes) ==>
+//@       (forall k int :: 0 <= k && k < i && k < len(pattern) ==> !rePropEsc(pattern, k))
